@@ -1360,6 +1360,9 @@ func (self *BinaryServerProtocol) ProcessParseLockData() (*protocol.LockCommandD
 	if err != nil {
 		return nil, err
 	}
+	if len(buf) < 6 {
+		return nil, errors.New("lock data frame too short")
+	}
 	return protocol.NewLockCommandDataFromOriginBytes(buf), nil
 }
 
